@@ -1,0 +1,18 @@
+//go:build verif
+
+package state
+
+import (
+	"0chain.net/core/datastore"
+	"github.com/0chain/common/core/util"
+)
+
+// VerifObserver, when set by a verification harness, is told about every
+// contract-level trie access made through a StateContext.
+var VerifObserver func(sc *StateContext, op int, key datastore.Key, v util.MPTSerializable, err error)
+
+func verifObserve(sc *StateContext, op int, key datastore.Key, v util.MPTSerializable, err error) {
+	if f := VerifObserver; f != nil {
+		f(sc, op, key, v, err)
+	}
+}
